@@ -15,7 +15,7 @@ def isAcq : Pc → Bool
 
 theorem tstep_enabled {t : Tid} {g : Glob} {th : Thread} (hT : TI kd res t g th) (hf : th.finished = false) :
     (isAcq th.pc = true ∧ g.lock ≠ none) ∨ (tstep kd res t g th).isSome = true := by
-  obtain ⟨hl, hk, _, _, hp⟩ := hT
+  obtain ⟨hl, hk, _, _, _, hp⟩ := hT
   cases hpc : th.pc <;> simp only [hpc, inLocked, kindOK, pcInv, isAcq, Thread.finished] at hl hk hp hf ⊢ <;>
     simp only [tstep, hpc]
   case idle =>
@@ -23,6 +23,10 @@ theorem tstep_enabled {t : Tid} {g : Glob} {th : Thread} (hT : TI kd res t g th)
     cases htd : th.todo with
     | nil => simp [htd] at hf
     | cons op rest => cases op <;> simp <;> split <;> simp
+  case lSdWrite =>
+    right; obtain ⟨_, _, ⟨i, hi, _⟩, hsn⟩ := hp; simp [hi, hsn]
+  case lInit =>
+    right; obtain ⟨_, _, i, hi⟩ := hp; simp [hi]
   all_goals first
     | (right; simp; done)
     | (by_cases hlk : g.lock = none <;> simp [hlk]; done)
